@@ -112,6 +112,15 @@ struct Report {
 
   void count(const std::string& c, long n = 1) { counters[c] += n; }
 
+  // replay filter: true when no --replay was given, or when the replayed full key ends with "/<cellkey>"
+  bool want(const std::string& cellkey) const {
+    if (args.replay.empty()) return true;
+    const std::string& r = args.replay;
+    if (r == cellkey) return true;
+    if (r.size() < cellkey.size() + 1) return false;
+    return r.compare(r.size() - cellkey.size(), cellkey.size(), cellkey) == 0 && r[r.size() - cellkey.size() - 1] == '/';
+  }
+
   // judge residual against bar; returns true if ok
   bool judge(const std::string& check, long double resid, long double bar, const std::string& key) {
     ++evaluations;
